@@ -374,7 +374,13 @@ def user_allkw(*, init_impact_stock, elapsed_temporal_unit, recovery_tau):
     return init_impact_stock / (1.0 + elapsed_temporal_unit / recovery_tau)
 
 
-USER_CURVES = {"user_init_first": user_init_first, "user_allkw": user_allkw, "user_swapped": user_swapped, "user_kwonly": user_kwonly, "user_fixed_speed": user_fixed_speed, "user_jump": user_jump}
+import functools as _functools  # noqa: E402
+from boario.utils import recovery_functions as _rf  # noqa: E402
+
+# a built-in curve with one of its optional parameters pre-bound by the caller (scaling 1 instead of the default 4)
+user_partial = _functools.partial(_rf.convexe_recovery_scaled, scaling_factor=1)
+
+USER_CURVES = {"user_partial": user_partial, "user_init_first": user_init_first, "user_allkw": user_allkw, "user_swapped": user_swapped, "user_kwonly": user_kwonly, "user_fixed_speed": user_fixed_speed, "user_jump": user_jump}
 
 
 def curve_arg(name):
@@ -402,7 +408,7 @@ def gen_event(rng: random.Random, tb: dict, cfg: dict, T: int, etype=None, capit
     if etype == "arbitrary":
         ev["impact"] = {_key(r, s): rng.choice([0.1, 0.3, 0.5, 0.9, 1.0, 0.05]) for r, s in inds}
         ev["recovery_tau"] = rng.choice([1, 2, 3, 5, 10])
-        ev["curve"] = rng.choice(["linear", "linear", "convexe", "convexe noscale", "concave", "user_swapped", "user_kwonly", "user_fixed_speed", "user_jump", "user_init_first", "user_allkw"])
+        ev["curve"] = rng.choice(["linear", "linear", "convexe", "convexe noscale", "concave", "user_swapped", "user_kwonly", "user_fixed_speed", "user_jump", "user_init_first", "user_allkw", "user_partial"])
         return ev
     # (factors that are not powers of ten are documented too: currency conversion)
     emf = rng.choice([cfg["monetary_factor"], cfg["monetary_factor"], 1, 10**3, 10**6, 800, 2_500_000])
@@ -458,7 +464,7 @@ def gen_event(rng: random.Random, tb: dict, cfg: dict, T: int, etype=None, capit
         ev["shares_series"] = rng.random() < 0.35
     else:
         ev["recovery_tau"] = rng.choice([1, 2, 3, 5, 10, 30])
-        ev["curve"] = rng.choice(["linear", "linear", "convexe", "convexe noscale", "concave", "user_swapped", "user_kwonly", "user_fixed_speed", "user_jump", "user_init_first", "user_allkw"])
+        ev["curve"] = rng.choice(["linear", "linear", "convexe", "convexe noscale", "concave", "user_swapped", "user_kwonly", "user_fixed_speed", "user_jump", "user_init_first", "user_allkw", "user_partial"])
     return ev
 
 
